@@ -173,8 +173,10 @@ def mutate_operand(rng, e, maxexp=3.0):
             e.offset = val
         else:
             e.vertices[int(tgt[-1])].pose = val
-    else:
+    elif rng.random() < 0.5:
         obj[:] = new
+    else:
+        np.copyto(np.asarray(obj), np.array(new))  # a write that does not go through the pose object's own __setitem__
     return "%s:%s" % (tgt, how)
 
 
